@@ -82,3 +82,15 @@ def lemma(name, cond):
 
 def general(name, fn, *args):
     return True
+
+
+def fmt_pieces(text):
+    return [text]
+
+
+def rope_fmt(value, prec, kind='f'):
+    return f'{float(value):.{prec}f}'
+
+
+def text_equal(a, b):
+    return a == b
